@@ -194,6 +194,7 @@ func c06(c *Ctx) {
 	c.checkPreloadErrorFlow()
 	c.R.Rule("R6.6", "a reader handed out by the size query is positioned at the start (same check as R4.7): the preload drains the stream the builder splices together, and a child reader left at its end contributes nothing — its blocks would never be fetched")
 	c.checkSizeQueryRewinds("R6.6")
+	c.checkNoFabricatedSize("R6.9")
 }
 
 func (c *Ctx) checkMustDrain(fn *ssa.Function) {
